@@ -1,5 +1,4 @@
 SPECIFICATION TSpec
 CONSTRAINT Report
-INVARIANT TraceCursorInMeasure
 INVARIANT TraceMeasuresTile
 CHECK_DEADLOCK FALSE
